@@ -60,6 +60,10 @@ class Wchar(str, BaseType):
         if count != EOF and len(data) != count:
             raise EOFError(f"Read {len(data)} bytes, but expected {count}")
 
+        if count == EOF and len(data) % 2:
+            # A trailing partial character is a premature end of the stream
+            raise EOFError(f"Read {len(data)} bytes, but expected a multiple of 2")
+
         return type.__call__(cls, data.decode(cls.__encoding_map__[cls.cs.endian]))
 
     @classmethod
